@@ -26,6 +26,8 @@ def sh(cmd):
 def run_one(meta_path, base_repo, private):
     meta = json.load(open(meta_path))
     sid = meta['id']
+    if meta.get('not_caught'):
+        return sid, {'(kept although not caught, see its meta.json)': 'VIOLATION-not-expected'}, None
     patch = os.path.join(os.path.dirname(meta_path), 'patch.diff')
     checks = sorted(set([meta['property']] + meta.get('caught_by', [])))
     repo = base_repo
@@ -77,7 +79,7 @@ def main():
                 missed.append(sid)
                 continue
             print('{:8s} {}'.format(sid, ' '.join('{}={}'.format(c, v) for c, v in verdicts.items())), flush=True)
-            if not any(v == 'VIOLATION' for v in verdicts.values()):
+            if not any(v.startswith('VIOLATION') for v in verdicts.values()):
                 missed.append(sid)
     print('missed:', missed)
     return 1 if missed else 0
